@@ -686,6 +686,92 @@ def unflattenM (sep : String) : M → M × Out
     if sep = "" ∧ kids ≠ [] then (.node bs dv ns kids, .err .value)
     else unflattenLoopM sep (kids.map (·.1)) (.node bs dv ns kids)
 
+/-! ### update(tensordict, update_batch_size=True) (tensordict/base.py:update after the `fix:` commits d11e6ff / 45f58da)
+
+When the batch sizes of receiver and payload are "obviously mismatching" (`looseMismatch`), the receiver is emptied of its
+leaves, given the batch size of the payload and updated again; a nested tensordict meeting a nested tensordict goes through
+the same procedure, after which the level above checks whether it still extends its batch size — if not (`batch_size_changed`)
+the level recomputes its own batch size at the end (`batch_size = (); auto_batch_size_(batch_dims)`), also when a later entry
+raises (there the errors of the adjustment itself are swallowed). -/
+
+/-- `keys(include_nested=True)`: nested tensordicts and leaves, as paths -/
+def allKeysM : Kids → Path → List Path
+  | [], _ => []
+  | (k, .leaf ..) :: r, pre => (pre ++ [k]) :: allKeysM r pre
+  | (k, .node _ _ _ sub) :: r, pre => (pre ++ [k]) :: (allKeysM sub (pre ++ [k]) ++ allKeysM r pre)
+
+/-- `item.batch_size[: self.batch_dims] != self.batch_size` for a nested tensordict -/
+def childOff (bs : Shape) : M → Bool
+  | .node cbs _ _ _ => cbs.take bs.length != bs
+  | .leaf .. => false
+
+/-- `bd = self.batch_dims; self.batch_size = (); self.auto_batch_size_(bd)` -/
+def fixupBs : M → M × Out
+  | .leaf s d => (.leaf s d, .err .attr)
+  | .node bs dv ns kids =>
+    match setBatchM [] (.node bs dv ns kids) with
+    | (t1, .err e) => (t1, .err e)
+    | (t1, .ok) => autoBatchM (some bs.length) t1
+
+/-- the `except Exception:` handler around the loop: when a nested tensordict no longer extends the batch size (or the flag
+is set) the adjustment runs, its own errors are swallowed; the original exception is re-raised by the caller -/
+def handlerBs (changed : Bool) : M → M
+  | .leaf s d => .leaf s d
+  | .node bs dv ns kids =>
+    if changed || kids.any (fun kv => childOff bs kv.2) then (fixupBs (.node bs dv ns kids)).1 else .node bs dv ns kids
+
+/-- the "mismatching batch sizes" head of `update`: every key of the receiver must be a key of the payload (RuntimeError
+otherwise, nothing touched); then `self.batch_size = ()`, the leaves are excluded in place, `self.batch_size = payload.batch_size` -/
+def prepBs (vbs : Shape) (vkeys : List Path) : M → M × Out
+  | .leaf s d => (.leaf s d, .err .attr)
+  | .node bs dv ns kids =>
+    if !(allKeysM kids []).all (fun p => vkeys.contains p) then (.node bs dv ns kids, .err .runtime)
+    else
+      match setBatchM [] (.node bs dv ns kids) with
+      | (t1, .err e) => (t1, .err e)
+      | (.leaf s d, .ok) => (.leaf s d, .err .attr)
+      | (.node bs1 dv1 ns1 kids1, .ok) =>
+        match excludeM ((leavesM kids1 []).map (·.1)) (.node bs1 dv1 ns1 kids1) with
+        | (t2, .err e) => (t2, .err e)
+        | (t2, .ok) => setBatchM vbs t2
+
+/-- the head of `target.update(value, update_batch_size=True)`: the mismatching-batch-size procedure when the loose test fires -/
+def prepIf (vbs : Shape) (vkeys : List Path) (t : M) : M × Out :=
+  if looseMismatch t.shape vbs then prepBs vbs vkeys t else (t, .ok)
+
+/-- the loop over `payload.items()` with the flag `batch_size_changed` -/
+def updateBsK : Kids → Bool → M → M × Out
+  | [], changed, t => if changed then fixupBs t else (t, .ok)
+  | _ :: _, _, .leaf s d => (.leaf s d, .err .attr)
+  | (k, .leaf s d) :: rest, changed, .node bs dv ns kids =>
+    match setPath false [k] (.leaf s d) (.node bs dv ns kids) with
+    | (t', .err e) => (handlerBs changed t', .err e)
+    | (t', .ok) => updateBsK rest changed t'
+  | (k, .node vbs vdv vns vsub) :: rest, changed, .node bs dv ns kids =>
+    match kget k kids with
+    | some (.node cbs cdv cns csub) =>
+      -- target.update(value, update_batch_size=True): its head, then its own loop; an exception reaches the handler of this level
+      match prepIf vbs (allKeysM vsub []) (.node cbs cdv cns csub) with
+      | (c0, .err e) => (handlerBs changed (.node bs dv ns (kset k c0 kids)), .err e)
+      | (c0, .ok) =>
+        match updateBsK vsub false c0 with
+        | (c, .err e) => (handlerBs changed (.node bs dv ns (kset k c kids)), .err e)
+        | (c, .ok) => updateBsK rest (changed || childOff bs c) (.node bs dv ns (kset k c kids))
+    | _ =>
+      match setPath false [k] (.node vbs vdv vns vsub) (.node bs dv ns kids) with
+      | (t', .err e) => (handlerBs changed t', .err e)
+      | (t', .ok) => updateBsK rest changed t'
+
+/-- `td.update(payload, update_batch_size=True)` with a tensordict payload -/
+def updateBsM (payload : M) (t : M) : M × Out :=
+  match t, payload with
+  | .leaf s d, _ => (.leaf s d, .err .attr)
+  | .node bs dv ns kids, .node vbs _ _ vsub =>
+    match prepIf vbs (allKeysM vsub []) (.node bs dv ns kids) with
+    | (c0, .err e) => (c0, .err e)
+    | (c0, .ok) => updateBsK vsub false c0
+  | .node bs dv ns kids, .leaf .. => (.node bs dv ns kids, .err .type)
+
 /-! ### writes into existing storage: set_, set_at_, update_, update_at_, `td[index] = value`
 
 These calls write VALUES (tensordict/_td.py: _set_at_str / _set_at_tuple, utils.py:_set_item, `tensor[index] = value`); the
@@ -772,6 +858,7 @@ inductive Op where
   | refineNames (handle : Path) (names : DimNames)
   | update (handle : Path) (items : List (Path × PV))
   | updateTd (handle : Path) (payload : M)
+  | updateBs (handle : Path) (payload : M)
   | write (handle : Path) (allowNew : Bool) (observed : M)
   | selectIn (handle : Path) (observed : M)
   | autoBatch (handle : Path) (batchDims : Option Nat)
@@ -798,6 +885,7 @@ def step (t : M) : Op → M × Out
   | .refineNames h ns => atPath (refineNamesM ns) h t
   | .update h items => atPath (updateC (updMeasureC items) items) h t
   | .updateTd h m => atPath (updateTdM m) h t
+  | .updateBs h m => atPath (updateBsM m) h t
   | .write h an obs => atPath (writeM an obs) h t
   | .selectIn h obs => atPath (selectInM obs) h t
   | .autoBatch h bd => atPath (autoBatchM bd) h t
